@@ -1105,3 +1105,162 @@ Proof.
   - apply ldiff_lt_pow2. lia. change (2 ^ 16) with 65536. lia.
   - split. apply Z.pow_nonneg. lia. apply Z.pow_lt_mono_r; lia.
 Qed.
+
+(* ------------------------------------------------------------------ the clauses, on the model *)
+(* pixels whose mask is overwritten by the final mask_border (mc-cnn only, offset > 0) *)
+Definition remarked_by (m : method) (nr nc off r c : Z) : bool :=
+  match m with McCnn => (0 <? off) && is_border nr nc off r c | Sgm => false end.
+
+Lemma remarked_is_mc : forall m nr nc off r c, remarked_by m nr nc off r c = true ->
+  m = McCnn /\ 0 < off /\ is_border nr nc off r c = true.
+Proof.
+  intros m nr nc off r c H. destruct m; cbn [remarked_by] in H; [|discriminate].
+  apply andb_true_iff in H. destruct H as [Ho Hb]. split. reflexivity. split. lia. exact Hb.
+Qed.
+
+Section OnModel.
+  Variable m : method.
+  Variables nr nc off : Z.
+  Variable disp : Z -> Z -> option Q.
+  Variable mask : Z -> Z -> Z.
+  Hypothesis NB : never_both nr nc mask.
+
+  Local Notation disp' := (fst (interp m nr nc off disp mask)).
+  Local Notation mask' := (snd (interp m nr nc off disp mask)).
+
+  Lemma interp_only_flagged_change : forall r c, 0 <= r < nr -> 0 <= c < nc ->
+    flagged (mask r c) = false ->
+    disp' r c = disp r c /\ mask' r c = if remarked_by m nr nc off r c then 1 else mask r c.
+  Proof.
+    intros r c Hr Hc Hf. destruct m; cbn [remarked_by].
+    - exact (mc_only_flagged _ _ _ _ _ _ _ (interp_mc_meets_spec nr nc off disp mask) r c Hr Hc Hf).
+    - exact (sgm_only_flagged _ _ _ _ _ _ (interp_sgm_meets_spec nr nc off disp mask NB) r c Hr Hc Hf).
+  Qed.
+
+  Lemma interp_flag_swap : forall r c, 0 <= r < nr -> 0 <= c < nc -> remarked_by m nr nc off r c = false ->
+    (Z.testbit (mask r c) 8 = true ->
+       (mask' r c = mask r c /\ disp' r c = disp r c) \/ swapped 8 4 (mask r c) (mask' r c)) /\
+    (Z.testbit (mask r c) 9 = true ->
+       (mask' r c = mask r c /\ disp' r c = disp r c) \/ swapped 9 5 (mask r c) (mask' r c) \/
+       (m = Sgm /\ swapped 9 8 (mask r c) (mask' r c) /\ disp' r c = disp r c) \/
+       (m = Sgm /\ swapped 9 4 (mask r c) (mask' r c))).
+  Proof.
+    intros r c Hr Hc Hrm. destruct m; cbn [remarked_by] in Hrm.
+    - destruct (mc_fate _ _ _ _ _ _ _ (interp_mc_meets_spec nr nc off disp mask) r c Hr Hc Hrm (NB r c Hr Hc)) as [A B].
+      split. exact A. intro H. destruct (B H) as [X|X]; auto.
+    - destruct (sgm_fate _ _ _ _ _ _ (interp_sgm_meets_spec nr nc off disp mask NB) r c Hr Hc (NB r c Hr Hc)) as [A B].
+      split. exact A. intro H. destruct (B H) as [X|[X|[X|X]]]; auto.
+  Qed.
+
+  (* the dichotomy of the property: a flagged pixel is either filled or stays flagged with its disparity *)
+  Lemma interp_filled_or_stays : forall r c, 0 <= r < nr -> 0 <= c < nc -> remarked_by m nr nc off r c = false ->
+    flagged (mask r c) = true ->
+    filled (mask r c) (mask' r c) \/ (flagged (mask' r c) = true /\ disp' r c = disp r c).
+  Proof.
+    intros r c Hr Hc Hrm Hf. destruct (interp_flag_swap r c Hr Hc Hrm) as [A B].
+    pose proof (NB r c Hr Hc) as Hnb. unfold flagged in Hf.
+    destruct (Z.testbit (mask r c) 8) eqn:E8.
+    - cbn [andb] in Hnb. destruct (A eq_refl) as [[Em Ed] | Hs].
+      + right. split. rewrite Em. unfold flagged. rewrite E8. reflexivity. exact Ed.
+      + left. split. unfold flagged. rewrite E8. reflexivity. apply flagged_false.
+        destruct (swapped_84_bits _ _ Hs) as [X Y]. split. exact X. congruence.
+    - cbn [orb] in Hf. destruct (B Hf) as [[Em Ed] | [Hs | [(_ & Hs & Ed) | (_ & Hs)]]].
+      + right. split. rewrite Em. unfold flagged. rewrite Hf. apply orb_true_r. exact Ed.
+      + left. split. unfold flagged. rewrite Hf. apply orb_true_r. apply flagged_false.
+        destruct (swapped_95_bits _ _ Hs) as [X Y]. split. congruence. exact X.
+      + right. split. unfold flagged. destruct (swapped_98_bits _ _ Hs) as [_ ->]. reflexivity. exact Ed.
+      + left. split. unfold flagged. rewrite Hf. apply orb_true_r. apply flagged_false. split.
+        rewrite (swapped_bit 9 4 _ _ 8 Hs) by lia. exact E8. apply (swapped_from 9 4 _ _ Hs). lia.
+  Qed.
+
+  Lemma interp_other_bits : forall r c, 0 <= r < nr -> 0 <= c < nc -> remarked_by m nr nc off r c = false ->
+    forall n, 0 <= n -> n <> 4 -> n <> 5 -> n <> 8 -> n <> 9 ->
+      Z.testbit (mask' r c) n = Z.testbit (mask r c) n.
+  Proof.
+    intros r c Hr Hc Hrm n Hn N4 N5 N8 N9.
+    destruct (flagged (mask r c)) eqn:Hf.
+    - destruct (interp_flag_swap r c Hr Hc Hrm) as [A B]. unfold flagged in Hf.
+      destruct (Z.testbit (mask r c) 8) eqn:E8.
+      + destruct (A eq_refl) as [[-> _] | Hs]. reflexivity. apply (swapped_bit 8 4 _ _ n Hs); lia.
+      + cbn [orb] in Hf. destruct (B Hf) as [[-> _] | [Hs | [(_ & Hs & _) | (_ & Hs)]]].
+        reflexivity. apply (swapped_bit 9 5 _ _ n Hs); lia. apply (swapped_bit 9 8 _ _ n Hs); lia.
+        apply (swapped_bit 9 4 _ _ n Hs); lia.
+    - destruct (interp_only_flagged_change r c Hr Hc Hf) as [_ E]. rewrite Hrm in E. rewrite E. reflexivity.
+  Qed.
+
+  Lemma interp_filled_range : forall lo hi, valid_range nr nc disp mask lo hi ->
+    forall r c, 0 <= r < nr -> 0 <= c < nc -> remarked_by m nr nc off r c = false ->
+    filled (mask r c) (mask' r c) -> exists q, disp' r c = Some q /\ (lo <= q <= hi)%Q.
+  Proof.
+    intros lo hi VR r c Hr Hc Hrm Hf. destruct m; cbn [remarked_by] in Hrm.
+    - exact (mc_filled_range _ _ _ _ _ _ _ (interp_mc_meets_spec nr nc off disp mask) lo hi VR r c Hr Hc Hrm Hf).
+    - exact (sgm_filled_range _ _ _ _ _ _ (interp_sgm_meets_spec nr nc off disp mask NB) lo hi VR r c Hr Hc Hf).
+  Qed.
+
+  (* no valid pixel at all: no disparity changes, no flagged pixel loses its flag *)
+  Lemma interp_no_valid_pixel : (forall r c, 0 <= r < nr -> 0 <= c < nc -> spec_valid (mask r c) = false) ->
+    forall r c, 0 <= r < nr -> 0 <= c < nc ->
+      disp' r c = disp r c /\
+      (remarked_by m nr nc off r c = false -> flagged (mask r c) = true -> flagged (mask' r c) = true).
+  Proof.
+    intros NV r c Hr Hc. destruct m; cbn [remarked_by].
+    - destruct (mc_no_valid_pixel _ _ _ _ _ _ _ (interp_mc_meets_spec nr nc off disp mask) NV r c Hr Hc) as [Ed Em].
+      split. exact Ed. intros Hrm Hf. unfold remarked in Em. rewrite Hrm in Em. rewrite Em. exact Hf.
+    - destruct (sgm_no_valid_pixel _ _ _ _ _ _ (interp_sgm_meets_spec nr nc off disp mask NB) NV r c Hr Hc) as [Ed Em].
+      split. exact Ed. intros _ Hf. destruct Em as [-> | Hs]. exact Hf.
+      unfold flagged. destruct (swapped_98_bits _ _ Hs) as [_ ->]. reflexivity.
+  Qed.
+
+  Lemma interp_border_bit0 : forall r c, 0 <= r < nr -> 0 <= c < nc ->
+    (m = McCnn -> 0 < off -> is_border nr nc off r c = true -> mask' r c = 1) /\
+    (mask r c = 1 -> mask' r c = 1).
+  Proof.
+    intros r c Hr Hc. split.
+    - intros -> Ho Hb.
+      exact (mc_border _ _ _ _ _ _ _ (interp_mc_meets_spec nr nc off disp mask) r c Hr Hc Ho Hb).
+    - intro E. assert (Hf : flagged (mask r c) = false) by (rewrite E; reflexivity).
+      destruct (interp_only_flagged_change r c Hr Hc Hf) as [_ X]. rewrite X, E.
+      destruct (remarked_by m nr nc off r c); reflexivity.
+  Qed.
+
+  Lemma interp_no_wrap : forall r c, 0 <= r < nr -> 0 <= c < nc ->
+    0 <= mask r c < 65536 -> 0 <= mask' r c < 65536.
+  Proof.
+    intros r c Hr Hc Hm. destruct (remarked_by m nr nc off r c) eqn:Hrm.
+    - assert (E : mask' r c = 1).
+      { apply remarked_is_mc in Hrm. destruct Hrm as (Em & Ho & Hb).
+        apply (proj1 (interp_border_bit0 r c Hr Hc)); assumption. }
+      rewrite E. lia.
+    - destruct (flagged (mask r c)) eqn:Hf.
+      + destruct (interp_flag_swap r c Hr Hc Hrm) as [A B]. unfold flagged in Hf.
+        destruct (Z.testbit (mask r c) 8) eqn:E8.
+        * destruct (A eq_refl) as [[-> _] | Hs]. exact Hm. apply (swapped_range 8 4 _ _) in Hs; (lia || assumption).
+        * cbn [orb] in Hf. destruct (B Hf) as [[-> _] | [Hs | [(_ & Hs & _) | (_ & Hs)]]]. exact Hm.
+          apply (swapped_range 9 5 _ _) in Hs; (lia || assumption).
+          apply (swapped_range 9 8 _ _) in Hs; (lia || assumption).
+          apply (swapped_range 9 4 _ _) in Hs; (lia || assumption).
+      + destruct (interp_only_flagged_change r c Hr Hc Hf) as [_ E]. rewrite Hrm in E. rewrite E. exact Hm.
+  Qed.
+
+  Lemma interp_never_both : never_both nr nc mask'.
+  Proof.
+    intros r c Hr Hc. destruct (remarked_by m nr nc off r c) eqn:Hrm.
+    - assert (E : mask' r c = 1).
+      { apply remarked_is_mc in Hrm. destruct Hrm as (Em & Ho & Hb).
+        apply (proj1 (interp_border_bit0 r c Hr Hc)); assumption. }
+      rewrite E. reflexivity.
+    - destruct (flagged (mask r c)) eqn:Hf.
+      + destruct (interp_filled_or_stays r c Hr Hc Hrm Hf) as [[_ X] | _].
+        * apply flagged_false in X. destruct X as [-> _]. reflexivity.
+        * destruct (interp_flag_swap r c Hr Hc Hrm) as [A B]. pose proof (NB r c Hr Hc) as Hnb. unfold flagged in Hf.
+          destruct (Z.testbit (mask r c) 8) eqn:E8.
+          -- cbn [andb] in Hnb. destruct (A eq_refl) as [[-> _] | Hs]. rewrite E8, Hnb. reflexivity.
+             destruct (swapped_84_bits _ _ Hs) as [-> _]. reflexivity.
+          -- cbn [orb] in Hf. destruct (B Hf) as [[-> _] | [Hs | [(_ & Hs & _) | (_ & Hs)]]].
+             rewrite E8. reflexivity.
+             destruct (swapped_95_bits _ _ Hs) as [-> _]. apply andb_false_r.
+             destruct (swapped_98_bits _ _ Hs) as [-> _]. apply andb_false_r.
+             rewrite (swapped_from 9 4 _ _ Hs) by lia. apply andb_false_r.
+      + destruct (interp_only_flagged_change r c Hr Hc Hf) as [_ E]. rewrite Hrm in E. rewrite E. apply NB; assumption.
+  Qed.
+End OnModel.
